@@ -170,14 +170,59 @@ Definition glue_target (a o : list value) : option verdict :=
   | _, _ => None
   end.
 
+(* ---------- ke.starget: the SCION client (own AS, empty path) after a key exchange over TLS or
+   QUIC: underlay destination of the datagram and destination of its SCION/UDP header ---------- *)
+
+Fixpoint run_starget (quic : bool) (hostA : bytes) (st : kdata) (steps obs : list value)
+  : option (list value * bool) :=
+  match steps, obs with
+  | [], [] => Some ([], true)
+  | VL [VZ _; VZ _; VL recs] :: steps', VL [VZ conns; VB uh; VZ up; VB ih; VZ ip; VZ same] :: obs' =>
+    match dec_recs recs with
+    | Some rs =>
+      let sc := {| sc_mode := 0; sc_alpn := [ntske1]; sc_recs := rs; sc_tail := [];
+                   sc_cut := length (wire rs); sc_host := hostA |} in
+      let '(st', o) := model_fetch quic dummy_exporter st sc in
+      let d := o_data o in
+      let e := if o_err o =? 0
+               then VL [VZ (o_conns o); VB (k_server d); VZ (k_port d); VB (k_server d); VZ (k_port d); VZ 1]
+               else VL [VZ (o_conns o); VB []; VZ (-1); VB []; VZ (-1); VZ 0] in
+      (* property: a new exchange; the datagram reaches the server and port named (else the
+         key-exchange host, the standard port of the transport), its SCION/UDP header says the
+         same, and it carries the cookie just issued *)
+      let a := scanned rs (length (wire rs)) in
+      let wh := opt_bytes (a_server a) hostA in
+      let wp := opt_z (a_port a) (std_ntp_port quic) in
+      let ok := (conns =? 1) && bytes_eqb uh wh && (up =? wp) && bytes_eqb ih wh && (ip =? wp) && (same =? 1) in
+      match run_starget quic hostA st' steps' obs' with
+      | Some (es, okr) => Some (e :: es, ok && okr)
+      | None => None
+      end
+    | None => None
+    end
+  | _, _ => None
+  end.
+
+Definition glue_starget (a o : list value) : option verdict :=
+  match a, o with
+  | [VZ q; VB hostA; VB _; VL steps], [VL obs] =>
+    match run_starget (negb (q =? 0)) hostA kzero steps obs with
+    | Some (e, ok) => Some (functional [VL e] o ok)
+    | None => None
+    end
+  | _, _ => None
+  end.
+
 (* ---------- ke.own: the project's own key-exchange server ---------- *)
 
-Definition glue_own (a o : list value) : option verdict :=
+(* quic: ke.ownq, the QUIC/SCION key-exchange server (StartNTSKEServerSCION) and a Fetcher with
+   QUIC.Enabled *)
+Definition glue_own (quic : bool) (a o : list value) : option verdict :=
   match a, o with
   | [VB ip; VZ port], [VZ cls'; VB server; VZ oport; VZ algo; VZ n; VZ distinct; VZ keys_ok; VZ measured] =>
     let p := {| p_up := true; p_alpn := [alpn_ntske]; p_host := ip;
                 p_stream := server_msg (fun i => [Z.of_nat i]) ip port |} in
-    let '(d, e) := exchange_keys dummy_exporter p in
+    let '(d, e) := exchange_keys_of quic dummy_exporter kzero p in
     let expected := [VZ (cls e); VB (k_server d); VZ (k_port d); VZ (k_algo d); VZ (Z.of_nat (length (k_cookies d))); VZ 1; VZ 1; VZ 1] in
     let ok := (cls' =? 0) && bytes_eqb server ip && (oport =? port) && (algo =? 15) && (1 <=? n)
               && (distinct =? 1) && (keys_ok =? 1) && (measured =? 1) in
@@ -190,8 +235,12 @@ Definition glue_C20 (k : string) (a o : list value) : option verdict :=
     match run_hist false a o with Some v => Some v | None => Some (relational false true) end
   else if is k "ke.target" then
     match glue_target a o with Some v => Some v | None => Some (relational false true) end
+  else if is k "ke.starget" then
+    match glue_starget a o with Some v => Some v | None => Some (relational false true) end
   else if is k "ke.own" then
-    match glue_own a o with Some v => Some v | None => Some (relational false true) end
+    match glue_own false a o with Some v => Some v | None => Some (relational false true) end
+  else if is k "ke.ownq" then
+    match glue_own true a o with Some v => Some v | None => Some (relational false true) end
   else if is k "ke.quic" then
     match run_hist true a o with Some v => Some v | None => Some (relational false true) end
   else None.
